@@ -596,7 +596,11 @@ structure MembGood (V : List Nat) (p : Nat) (m : Memb) : Prop where
   nodup : m.voters.Nodup
   sub : ∀ j ∈ m.voters, j ∈ V ∧ j ≠ p
   size : m.voters.length + 1 = V.length
-  single : m.isSingleNodeCluster = true → m.voters = []
+
+/-- since fix 16342b6 the request-free win is only taken without any other voter -/
+theorem voters_nil_of_single (m : Memb) (h : m.isSingleNodeCluster = true) : m.voters = [] := by
+  simp only [Memb.isSingleNodeCluster, Bool.and_eq_true, List.isEmpty_iff] at h
+  exact h.2
 
 theorem grantedBy_sublist (rs : List (Option Nat × Resp)) : (grantedBy rs).Sublist (rs.filterMap (·.1)) := by
   induction rs with
@@ -756,10 +760,7 @@ def Safe (V : List Nat) (c : Cluster) : Label → Prop
   | .appendEntries _ t l => c.isLeaderAt l t = true  -- AppendEntries are only sent by a leader of that term
   | .start p => p ≠ 0
   | .scripted _ r => isGrant r = false               -- a grant is only ever produced by a voter's handler
-  | .finish p _ => MembGood V p (c.proc p).memb      -- static membership; shortcut only for a sole voter (no F3)
-  | .stepDown _ => False                             -- no same-term step-down of a node holding a vote (F1)
-  | .crash _ => False                                -- no crash (F2)
-  | .restart p => (c.proc p).startLearner = false
+  | .finish p _ => MembGood V p (c.proc p).memb      -- static membership: the tally is over the configured voters
   | _ => True
 
 theorem flying_self_vote {V : List Nat} {c : Cluster} (h : Inv V c) {p : Nat} {f : Flight} (fl : Flying c p f) :
@@ -792,7 +793,7 @@ theorem inv_finish {V : List Nat} {c : Cluster} (h : Inv V c) (p : Nat) (ok : Bo
       rcases tally_ok hok with ⟨ho, hs⟩ | ⟨ho, hs, np, rs, htr', hcount⟩
       · -- the single-node shortcut: only a sole voter may take it
         simp only [ho, finishElection]
-        have hv := hm.single hs
+        have hv := voters_nil_of_single _ hs
         have hV : V.length = 1 := by have := hm.size; rw [hv] at this; simpa using this.symm
         exact inv_becomeLeader h p f [p] hfl (by simp) (by intro q hq; simp at hq; subst hq; exact hm.mem)
           (by simp [hV]) (by intro q hq; simp at hq; subst hq; exact hself) hself
@@ -844,21 +845,21 @@ theorem inv_setNode_quiet {V : List Nat} {c : Cluster} (h : Inv V c) (p : Nat) (
   obtain ⟨hup, hfl⟩ := (ready_iff c p).mp hr
   exact inv_setProc_quiet h p { c.proc p with node := n' } q (by intro hd; simp [hup] at hd) hfl
 
-theorem bootNode_quiet {V : List Nat} {c : Cluster} (h : Inv V c) (p : Nat) (hup : (c.proc p).up = false) :
+theorem bootNode_quiet {V : List Nat} {c : Cluster} (h : Inv V c) (p : Nat) (hup : (c.proc p).up = false) (lr : Bool) :
     Quiet c.isL (c.proc p).node
-      (bootNode (c.proc p).node.id false (c.proc p).image (c.proc p).node.lli (c.proc p).node.llt (c.proc p).node.pubs) := by
+      (bootNode (c.proc p).node.id lr (c.proc p).image (c.proc p).node.lli (c.proc p).node.llt (c.proc p).node.pubs) := by
   have hd := h.d p hup
   unfold Down at hd
   unfold bootNode
   cases him : (c.proc p).image with
   | none =>
     rw [him] at hd
-    simp only [Bool.false_eq_true, if_false, Option.getD_none]
-    exact ⟨rfl, hd.1, Or.inl (by simp [hd.2]), fun hl => by simp at hl⟩
+    simp only [Option.getD_none]
+    exact ⟨rfl, hd.1, Or.inl (by simp [hd.2]), fun hl => by cases lr <;> simp at hl⟩
   | some hh =>
     rw [him] at hd
-    simp only [Bool.false_eq_true, if_false, Option.getD_some]
-    exact ⟨rfl, by simp [hd.1], Or.inl (by simp [hd.2]), fun hl => by simp at hl⟩
+    simp only [Option.getD_some]
+    exact ⟨rfl, by simp [hd.1], Or.inl (by simp [hd.2]), fun hl => by cases lr <;> simp at hl⟩
 
 theorem inv_step {V : List Nat} {c : Cluster} (h : Inv V c) (l : Label) (hs : Safe V c l) : Inv V (step c l) := by
   cases l with
@@ -918,7 +919,12 @@ theorem inv_step {V : List Nat} {c : Cluster} (h : Inv V c) (l : Label) (hs : Sa
         · simpa [List.filterMap_append] using fl.nodup
       · exact h
   | finish p ok => exact inv_finish h p ok hs
-  | stepDown p => exact hs.elim
+  | stepDown p =>
+    simp only [step]
+    split
+    · rename_i hr
+      exact inv_setNode_quiet h p _ (becomeFollower_quiet c.isL _ none) hr
+    · exact h
   | higherTerm p t =>
     simp only [step]
     split
@@ -956,7 +962,16 @@ theorem inv_step {V : List Nat} {c : Cluster} (h : Inv V c) (l : Label) (hs : Sa
       · simp only [Proc.stop, hup, if_true]; exact Quiet.refl _ _
       · intro _; simp [Proc.stop, hup, Down]
     · exact h
-  | crash p => exact hs.elim
+  | crash p =>
+    simp only [step]
+    split
+    · rename_i hup
+      have h1 : Inv V { c with flight := upd c.flight p none } :=
+        inv_setFlight h p none (by intro f hf; cases hf)
+      refine inv_setProc_quiet h1 p (c.proc p).crash ?_ ?_ (by simp)
+      · simp only [Proc.crash, hup, if_true]; exact Quiet.refl _ _
+      · intro _; simp [Proc.crash, hup, Down]
+    · exact h
   | restart p =>
     simp only [step]
     split
@@ -969,9 +984,7 @@ theorem inv_step {V : List Nat} {c : Cluster} (h : Inv V c) (l : Label) (hs : Sa
         | some f => have := (h.n p f hf).up; rw [hup'] at this; cases this
       refine inv_setProc_quiet h p (c.proc p).restart ?_ ?_ hfl
       · simp only [Proc.restart, hup', Bool.false_eq_true, if_false]
-        have hsl : (c.proc p).startLearner = false := hs
-        rw [hsl]
-        exact bootNode_quiet h p hup'
+        exact bootNode_quiet h p hup' _
       · intro hd; simp [Proc.restart, hup'] at hd
 
 /-- all steps of a trace are safe (hypotheses are evaluated in the state each step starts from) -/
